@@ -45,6 +45,7 @@ VALID = {3: {HANDLE, STATUS}, 4: {STATUS}, 5: {DATA, STATUS}, 6: {STATUS}, 7: {A
          9: {STATUS}, 10: {STATUS}, 11: {HANDLE, STATUS}, 12: {NAME, STATUS}, 13: {STATUS}, 14: {STATUS},
          15: {STATUS}, 16: {NAME, STATUS}, 17: {ATTRS, STATUS}, 18: {STATUS}, 19: {NAME, STATUS}, 20: {STATUS},
          200: {EXT_REPLY, STATUS}}
+ID_BASES = [0, 1, 0x7FFFFFFF, 0x80000000, 0xFEFFFFFF, 0xFF000000, 0xFF000001, 0xFFFFFFF0]
 HANDLE_CMDS = ["CLOSE", "READ", "WRITE", "FSTAT", "FSETSTAT", "READDIR", "check-file"]
 EXT_UNKNOWN = [b"statvfs@openssh.com", b"fstatvfs@openssh.com", b"hardlink@openssh.com", b"fsync@openssh.com",
                b"lsetstat@openssh.com", b"limits@openssh.com", b"expand-path@openssh.com", b"copy-data",
@@ -112,11 +113,12 @@ class Ledger:
         self.closed = {}  # ids already judged in this session -> label (late duplicates are looked for)
 
     def new_id(self):
-        self.nextid += 1
+        self.nextid = (self.nextid + 1) & 0xFFFFFFFF  # request ids are plain uint32 and wrap
         return self.nextid
 
     def send(self, t, body, label, cls, expect, strict=True, desc=None, rid=None):
         rid = self.new_id() if rid is None else rid
+        self.closed.pop(rid, None)  # an id may legitimately be used again later in a session
         self.pending[rid] = dict(t=t, label=label, cls=cls, expect=expect, strict=strict, desc=desc or {})
         try:
             self.bench.raw_request(t, U32(rid) + body)
@@ -231,6 +233,10 @@ class ServerFuzz:
         if st != "idle":
             raise RuntimeError("bench did not start: " + st)
         self.lg = Ledger(ctx, self.bench, "lockstep")
+        # the whole session numbers its requests from one of the interesting places of the uint32 range
+        self.id_base = self.rng.choice(ID_BASES + [self.rng.randrange(1 << 32)])
+        self.lg.nextid = (self.id_base - 1) & 0xFFFFFFFF
+        ctx.count("server_sessions_id_base_%s" % ("0x%08X" % self.id_base if self.id_base in ID_BASES else "random"))
         self.stale_f = self.stale_d = None
 
     def close(self):
@@ -300,7 +306,10 @@ class ServerFuzz:
                       if t in (0, 21, 150) else None)
         if t in (1, 2):
             # INIT/VERSION carry no request id: not in the ledger; the server must go on answering
-            self.bench.raw_request(t, U32(3) + body)
+            # (the 4 bytes where a version number belongs are drawn from the id sequence, so that whatever the server
+            # echoes cannot collide with a real request of this session; judged leniently)
+            self.lg.send(t, body, "INIT/VERSION mid-session", "no request id", None, strict=False)
+            self.lg.settle()
             self.ask(16, S(b"/"), "REALPATH", "valid", VALID[16], desc=dict(after="INIT/VERSION mid-session"))
             return
         if t in VALID:
@@ -463,6 +472,54 @@ class ServerFuzz:
         self.lg.settle()
         self.ask(17, S(b"/"), "STAT", "valid", VALID[17], desc=dict(after="application fault"))
 
+    def case_id_range(self, base):
+        """One fixed sequence that draws every response type, numbered from `base` (wrapping past 0xFFFFFFFF): each
+        response must carry exactly the request's id as a plain uint32 and parse as its type."""
+        self.ctx.case(("id-range", base, self.rng.random()), sample=dict(kind="id-range", base="0x%08X" % base)
+                      if base in (0xFFFFFFF0, 0xFF000000) else None)
+        self.lg.nextid = (base - 1) & 0xFFFFFFFF
+        tag = "0x%08X" % base
+        seen = []
+
+        def ask(t, body, label, expect):
+            r = self.ask(t, body, label, "valid", expect, desc=dict(id_base=tag))
+            if r is not None:
+                seen.append(r["type"])
+                self.ctx.count("idrange_%s_responses_with_exact_id" % tag)
+                self.ctx.count("idrange_responses_type_%s" % NAME_OF.get(r["type"], r["type"]))
+            return r
+
+        path = next((p for p, n in self.sizes.items() if n > 0), "/f0")
+        r = ask(3, S(path.encode()) + U32(1) + U32(0), "OPEN", {HANDLE})
+        h = r["body"][8:] if r is not None and r["type"] == HANDLE else None
+        if h is not None:
+            ask(5, S(h) + U64(0) + U32(100), "READ", VALID[5])
+            ask(8, S(h), "FSTAT", {ATTRS})
+            ask(200, S(b"check-file") + S(h) + S(b"md5") + U64(0) + U64(0) + U32(1024), "EXTENDED check-file", VALID[200])
+            ask(5, S(h) + U64(1 << 40) + U32(100), "READ", {STATUS})
+        r = ask(11, S(b"/d"), "OPENDIR", {HANDLE})
+        dh = r["body"][8:] if r is not None and r["type"] == HANDLE else None
+        if dh is not None:
+            for _ in range(5):
+                ask(12, S(dh), "READDIR", VALID[12])
+            ask(4, S(dh), "CLOSE", VALID[4])
+        ask(16, S(b"/a/../b"), "REALPATH", {NAME})
+        ask(17, S(b"/"), "STAT", {ATTRS})
+        ask(7, S(b"/missing"), "LSTAT", {STATUS})
+        ask(200, S(b"statvfs@openssh.com") + S(b"/"), "EXTENDED", {STATUS})
+        ask(10, S(b"nohandle") + U32(0), "FSETSTAT", {STATUS})
+        if h is not None:
+            ask(4, S(h), "CLOSE", VALID[4])
+        # pipelined as well: ids straddling the wrap in one burst
+        lg = Ledger(self.ctx, self.bench, "burst")
+        lg.closed = self.lg.closed
+        lg.nextid = self.lg.nextid
+        for _ in range(24):
+            self.valid_ops(lg, 1)
+        got = lg.settle()
+        self.ctx.count("idrange_%s_responses_with_exact_id" % tag, len(got))
+        self.lg.nextid, self.lg.p0, self.lg.spins_seen = lg.nextid, lg.p0, lg.spins_seen
+
     def valid_ops(self, lg, n):
         """n well-formed requests on live objects (sent through `lg`, not settled here)."""
         rng = self.rng
@@ -568,7 +625,7 @@ class ServerFuzz:
             return
         lg = Ledger(self.ctx, self.bench, "burst")
         lg.closed = self.lg.closed
-        lg.nextid = self.lg.nextid + 100000
+        lg.nextid = (self.lg.nextid + 100000) & 0xFFFFFFFF
         n = rng.randint(20, 120)
         self.ctx.case(("burst", n, rng.random()), sample=dict(kind="burst", requests=n) if n % 7 == 0 else None)
         for _ in range(n):
@@ -586,7 +643,7 @@ class ServerFuzz:
             else:
                 lg.send(rng.choice([0, 21, 50, 99, 106, 199, 202, 255]), b"", "unknown-command", "unsupported", {STATUS})
         lg.settle()
-        self.lg.nextid = lg.nextid + 1
+        self.lg.nextid = (lg.nextid + 1) & 0xFFFFFFFF
         self.lg.p0 = lg.p0
         self.lg.spins_seen = lg.spins_seen
         self.lg.dead = self.lg.dead or lg.dead
@@ -603,6 +660,9 @@ def run_server_side(ctx):
         for kind in ("never-issued", "never-issued", "stale-file", "stale-dir", "dir-handle-to-file-command",
                      "file-handle-to-READDIR"):
             plan.append(("bad", which, kind))
+    for base in ID_BASES:
+        for _rep in range(2):
+            plan.append(("idr", base))
     plan = [c for i, c in enumerate(plan) if ctx.mine(i)]
     reps = ctx.pick(2, 12)
     extra = ctx.pick(250, 2000)
@@ -635,6 +695,8 @@ def run_server_side(ctx):
                 fz.case_truncated()
             elif c[0] == "fault":
                 fz.case_faulty()
+            elif c[0] == "idr":
+                fz.case_id_range(c[1])
             else:
                 fz.case_burst()
             # keep the reply pipe from growing: nobody reads it in raw mode
@@ -838,6 +900,15 @@ class ClientProgram:
             F[st[1]].seek(st[2])
         elif k == "readv":
             list(F[st[1]].readv(st[2]))
+        elif k == "readv_blocks":
+            n, blk, order = st[2], st[3], st[4]
+            chunks = [(i * blk, blk) for i in range(n)]
+            if order == "shuffled":
+                random.Random(n * 31 + blk).shuffle(chunks)
+            elif order == "reversed":
+                chunks.reverse()
+            got = sum(len(x) for x in F[st[1]].readv(chunks))
+            self.bytes_read = getattr(self, "bytes_read", 0) + got
         elif k == "check":
             F[st[1]].check("md5", 0, 0, 1024)
         elif k == "flush":
@@ -1061,6 +1132,31 @@ def iter_suspend_program(rng):
     return dict(family="iter-suspend"), steps
 
 
+def backpressure_program(rng):
+    """Flow-control back-pressure: both directions of the pipe are bounded (like 4-32 KiB channel windows), the server
+    is slow on its first read, and a second sender thread (prefetch / readv / getfo) has far more requests to send than
+    fit. The application itself only reads while that thread sends (anything else can legitimately wedge on flow
+    control), then goes on with ordinary requests."""
+    cap = rng.choice([2048, 4096, 4096, 32768])
+    n = rng.choice([150, 400, 900]) if cap < 32768 else rng.choice([1500, 3000])
+    how = rng.choice(["readv", "readv", "readv-shuffled", "prefetch-read", "getfo"])
+    steps = []
+    if how.startswith("readv"):
+        steps += [("open_r", "b", "/big"), ("readv_blocks", "b", n, 1024, "shuffled" if how.endswith("shuffled") else
+                                           rng.choice(["sequential", "sequential", "reversed"]))]
+    elif how == "prefetch-read":
+        steps += [("open_r", "b", "/big"), ("prefetch", "b", None), ("read", "b", n * 1024 + 10)]
+    else:
+        steps += [("getfo", "/big", True)]
+    steps.append(rng.choice([("stat", "/r0"), ("listdir", "/d"), ("in_thread", ("stat", "/r0")), ("normalize", "/")]))
+    if how != "getfo":
+        if rng.random() < 0.4:
+            steps.append(("readv_blocks", "b", rng.choice([50, 300]), 1024, "sequential"))
+        steps.append(("close", "b"))
+    steps.append(("stat", "/r1"))
+    return dict(family="backpressure", how=how, capacity=cap, blocks=n), steps
+
+
 def last_ref_program(rng):
     """Abandoned prefetching file whose last reference ends up inside SFTPClient._read_response: the prefetch thread
     (which keeps the file alive) can send its final request and exit only when a reader retires a slot, and that
@@ -1144,10 +1240,11 @@ def client_case(ctx, idx):
     rng = ctx.rng
     r = rng.random()
     fam = "steal" if r < 0.12 else "iter" if r < 0.2 else "itersusp" if r < 0.38 else "abandon" if r < 0.57 else \
-        "lastref" if r < 0.6 else "random"
+        "lastref" if r < 0.6 else "backpressure" if r < 0.72 else "random"
     desc, steps = steal_program(rng) if fam == "steal" else iter_program(rng) if fam == "iter" else \
         iter_suspend_program(rng) if fam == "itersusp" else abandon_program(rng) if fam == "abandon" else \
-        last_ref_program(rng) if fam == "lastref" else random_program(rng)
+        last_ref_program(rng) if fam == "lastref" else backpressure_program(rng) if fam == "backpressure" else \
+        random_program(rng)
     policy = rng.choice(["all", "all", "one", "some"])
     desc["release_policy"] = policy
     has_pipe = any(s[0] == "open_w" and s[2] for s in steps) or any(
@@ -1164,12 +1261,41 @@ def client_case(ctx, idx):
         os.mkdir(os.path.join(root, "d"))
         for i in range(rng.choice([0, 5, 40])):
             open(os.path.join(root, "d", "e%d" % i), "w").close()
+        if fam == "backpressure":
+            with open(os.path.join(root, "big"), "wb") as f:
+                f.write(rng.randbytes(desc["blocks"] * 1024))
         bench = MonBench(root)
+        if fam == "backpressure":
+            bench.wire.d2_capacity = desc["capacity"]
+            state = dict(first=True)
+
+            def before_read(bench=bench, state=state):
+                # "server slow on the first read": it resumes once the client's sender is parked on the full
+                # request pipe (or after 2 s)
+                if state["first"]:
+                    state["first"] = False
+                    end = time.monotonic() + 2.0
+                    while time.monotonic() < end:
+                        with bench.wire.c2s.cv:
+                            if bench.wire.client_end.send_waiting:
+                                ctx.count("backpressure_server_resumed_with_client_sender_parked")
+                                break
+                        time.sleep(0.001)
+
+            bench.mon.before_read = before_read
+        elif rng.random() < 0.5:
+            pass
         bench.unexpected_log = []
         _watch_unexpected(bench)
         if rng.random() < 0.25:
             frng = random.Random(rng.getrandbits(32))
             bench.wire.frag = lambda n, avail, frng=frng: frng.choice([1, 3, n, n, avail, 7])
+        if rng.random() < 0.5:
+            # a long-lived session: the client's request counter is already high in the uint32 range
+            base = rng.choice([0x7FFFFFF0, 0x80000000, 0xFEFFFFF0, 0xFF000000, 0xFF000001, 0xFFF00000])
+            bench.client.request_number = base
+            desc["client_id_base"] = "0x%08X" % base
+            ctx.count("client_programs_with_high_request_ids")
         prog = ClientProgram(bench, root, steps, rng.getrandbits(32))
         if rng.random() < 0.35:
             # schedule perturbation: a paramiko-internal thread (prefetch) that has just written a request is
@@ -1204,6 +1330,12 @@ def client_case(ctx, idx):
         ctx.count("client_pipelined_write_requests", sum(1 for p in reqs if p["type"] == CMD["WRITE"]))
         ctx.count("client_steps_executed", len(prog.log))
         ctx.count("client_programs_family_" + desc["family"])
+        if fam == "backpressure":
+            ctx.count("backpressure_client_sends_parked_on_full_pipe", bench.wire.client_end.send_blocks)
+            ctx.count("backpressure_server_sends_parked_on_full_pipe", bench.wire.server_end.send_blocks)
+            ctx.count("backpressure_bytes_read_via_readv", getattr(prog, "bytes_read", 0))
+            if verdict == "completed":
+                ctx.count("backpressure_programs_completed")
         if prog.iter_stats["suspended"]:
             ctx.count("listings_suspended_with_readaheads", prog.iter_stats["suspended"])
             ctx.count("listings_resumed", prog.iter_stats["resumed"])
@@ -1265,7 +1397,7 @@ def control(ctx, bench, prog, policy, desc):
         # a stack that was already confirmed stuck twice with the full dwell in this shard is re-confirmed after 3 s
         need_quiet = 3.0 if (len(stack_samples) == 1 and CONFIRMED_STUCK.get(next(iter(stack_samples)), 0) >= 2) \
             else stuck_after
-        if quiet >= need_quiet and not held and not prog.done and bench.server_idle() and len(stack_samples) == 1 \
+        if quiet >= need_quiet and not held and not prog.done and bench.server_parked() and len(stack_samples) == 1 \
                 and not (waiting and bench.client_idle()):
             CONFIRMED_STUCK[next(iter(stack_samples))] = CONFIRMED_STUCK.get(next(iter(stack_samples)), 0) + 1
             # DESIGN 2.4 rule 2: link drained, server idle, no byte consumed, same stack for >= 12/20 s, and the
@@ -1343,6 +1475,16 @@ def stuck(ctx, bench, prog, desc, quiet):
     site = "->".join(names[-2:]) if names else "?"
     step = prog.steps[prog.at]
     ctx.count("client_calls_stuck_at_quiescence")
+    with bench.wire.c2s.cv:
+        sender_parked = bench.wire.client_end.send_waiting
+    if sender_parked:
+        ctx.violation("client stuck forever in %s without reading while its own sender is parked on the full "
+                      "request pipe (flow-control deadlock)" % site,
+                      "nothing moved for %.0f s: the server is parked sending answers nobody reads, a client thread is "
+                      "parked in send(), and the call %r neither reads nor returns" % (quiet, step[0]),
+                      dict(program=desc, step_index=prog.at, step=list(step), steps=[list(x) for x in prog.steps][:40],
+                           stack=names, thread=t.name))
+        return "stuck"
     ctx.violation("client stuck forever in %s without reading: session quiescent, every request answered" % site,
                   "no packet moved and the client consumed no byte for %.0f s while the server was idle and nothing was "
                   "held back; the call %r never returned and its stack did not change" % (quiet, step[0]),
@@ -1481,6 +1623,15 @@ def run(ctx):
     ctx.require("client_unexpected_responses_seen", ctx.pick(40, 400))
     ctx.require("client_programs_family_abandon-last-ref", ctx.pick(2, 40))
     ctx.require("listings_suspended_with_readaheads", ctx.pick(12, 150))
+    for b in ID_BASES:
+        ctx.require("idrange_0x%08X_responses_with_exact_id" % b, ctx.pick(60, 700))
+    for tname in ("STATUS", "HANDLE", "DATA", "NAME", "ATTRS", "EXTENDED_REPLY"):
+        ctx.require("idrange_responses_type_" + tname, ctx.pick(16, 200))
+    ctx.require("client_programs_with_high_request_ids", ctx.pick(60, 1000))
+    ctx.require("backpressure_programs_completed", ctx.pick(10, 200))
+    ctx.require("backpressure_client_sends_parked_on_full_pipe", ctx.pick(10, 200))
+    ctx.require("backpressure_server_sends_parked_on_full_pipe", ctx.pick(10, 200))
+    ctx.require("backpressure_server_resumed_with_client_sender_parked", ctx.pick(5, 100))
     ctx.require("listings_completed_after_suspension", ctx.pick(10, 120))
     ctx.require("perturbed_async_sends_answered_before_send_returned", ctx.pick(50, 800))
     ctx.require("client_pipelined_write_requests", ctx.pick(10000, 200000))
